@@ -1175,13 +1175,29 @@ impl<'a> TransactionRebase<'a> {
                 Operation::UpdateMemWalState {
                     added: committed_added,
                     updated: committed_updated,
-                    removed: _,
+                    removed: committed_removed,
                 } => {
-                    // 1. if the current or last committed job is trimming flushed MemWALs,
-                    // it is compatible with any other UpdateMemWalState commits
-                    if (committed_added.is_empty() && committed_updated.is_empty())
-                        || (added.is_empty() && updated.is_empty())
-                    {
+                    // 1. if the current job is trimming merged MemWALs,
+                    // it is compatible with any other UpdateMemWalState commits.
+                    // If the last committed job was trimming merged MemWALs, it is compatible
+                    // unless it removed a MemWAL that the current job adds or updates:
+                    // committing that would add the trimmed MemWAL back.
+                    if added.is_empty() && updated.is_empty() {
+                        return Ok(());
+                    }
+                    if committed_added.is_empty() && committed_updated.is_empty() {
+                        if committed_removed.iter().any(|removed| {
+                            added
+                                .iter()
+                                .chain(updated.iter())
+                                .any(|mem_wal| mem_wal.id == removed.id)
+                        }) {
+                            return Err(self.incompatible_conflict_err(
+                                other_transaction,
+                                other_version,
+                                location!(),
+                            ));
+                        }
                         return Ok(());
                     }
 
